@@ -53,6 +53,7 @@ func cmdRun(args []string) {
 	sched := fs.String("sched", "", "join|interleave")
 	sw := fs.Int("switches", 3, "max context switches")
 	races := fs.Bool("races", false, "race detection")
+	realLog := fs.Bool("reallog", false, "execute the real syslog package")
 	term := fs.Bool("term", false, "budget excess is a violation")
 	steps := fs.Int("steps", 0, "max steps")
 	knownF := fs.String("known", "", "comma-separated known keys")
@@ -65,7 +66,7 @@ func cmdRun(args []string) {
 	}
 	fmt.Printf("load+ssa %.1fs\n", w.loadS)
 	spec := RunSpec{Name: *entry, Pkg: "github.com/go-kid/ioc/" + *pkg, Entry: *entry, Params: map[string]int{},
-		Opts: ExecOpts{PermuteRange: *perm, PermutePerCall: *permCall, PermuteCoarse: *permCoarse, Sched: *sched, MaxSwitches: *sw, Races: *races, Termination: *term, MaxSteps: *steps}}
+		Opts: ExecOpts{PermuteRange: *perm, PermutePerCall: *permCall, PermuteCoarse: *permCoarse, Sched: *sched, MaxSwitches: *sw, Races: *races, RealSyslog: *realLog, Termination: *term, MaxSteps: *steps}}
 	if *pkg == "" {
 		spec.Pkg = "github.com/go-kid/ioc"
 	}
